@@ -24,7 +24,31 @@ ALPHABET = gen.SAFE_TEXT_ATOMS + ["\u0001", "\u0008", "\u000c", "\u001f", "\u007
 
 IDX_RE = re.compile(r"index_translations\s*::\s*<\s*(\d+)(?:usize)?\s*,\s*(\d+)(?:usize)?\s*>")
 ARR_RE = re.compile(r"\[\s*(?:&\s*(?:'static\s*)?str|Box\s*<\s*str\s*>)\s*;\s*(\d+)(?:usize)?\s*\]")
-STRINGS_RE = re.compile(r"const\s+STRINGS\s*:\s*&\s*\[\s*&\s*str\s*;\s*(\d+)(?:usize)?\s*\]\s*=\s*&\s*\[(.*?)\]\s*;", re.S)
+STRINGS_RE = re.compile(r"const\s+STRINGS\s*:\s*&\s*\[\s*&\s*str\s*;\s*(\d+)(?:usize)?\s*\]\s*=\s*&\s*\[", re.S)
+
+
+def baked_tables(toks):
+    """[(N, body)] for every `const STRINGS: &[&str; N] = &[ .. ];` (body scanned with string-literal awareness)."""
+    out = []
+    for m in STRINGS_RE.finditer(toks):
+        i = m.end()
+        start = i
+        in_str = False
+        while i < len(toks):
+            c = toks[i]
+            if in_str:
+                if c == "\\":
+                    i += 2
+                    continue
+                if c == '"':
+                    in_str = False
+            elif c == '"':
+                in_str = True
+            elif c == "]":
+                break
+            i += 1
+        out.append((m.group(1), toks[start:i]))
+    return out
 
 
 def walk_locale(res, loc, top_strings, top_count, where, project, accessible=None):
@@ -144,7 +168,7 @@ def check_tokens(res, project, tables, variant, tout):
     if variant in ("default", "dyn_ssr"):
         # baked tables: const STRINGS: &[&str; N] = &[..]; their contents must be one of the tables, in order
         baked = []
-        for n_, body in STRINGS_RE.findall(toks):
+        for n_, body in baked_tables(toks):
             lits = rust_string_literals(body)
             baked.append(lits)
             res.ev()
